@@ -640,6 +640,7 @@ func (fr *Frame) selectStmt(st *State, n *ast.SelectStmt) flow {
 			fr.expr(s, cm.X)
 		case *ast.AssignStmt:
 			fr.assignStmt(s, cm)
+			fr.atAfter(s, cm)
 		}
 		f := fr.block(s, c.cc.Body)
 		ends = append(ends, f.next)
